@@ -60,6 +60,7 @@ def impl_compile(path):
 
 def write(scratch, name, text):
     fn = os.path.join(scratch, name)
+    os.makedirs(os.path.dirname(fn), exist_ok=True)
     with open(fn, 'w', encoding='utf-8') as f:
         f.write(text)
     return fn
@@ -320,6 +321,22 @@ def check_c17(tier, seed):
                         write(scratch, f'mid{i}.mal', render_junk([('kw', 'include'), ('str', f'inc{i}.mal')]))
                         root = head + [('kw', 'include'), ('str', f'mid{i}.mal'), ('kw', 'include'), ('str', f'ok{i}.mal')]
                     variants.append(('include-then-include-' + k, root, m))
+            # two included files whose names a careless include-once key or cache would identify (same stem up to trailing
+            # letters of the suffix, same base name in another directory, case, doubled suffix); the valid one comes first
+            if len(decls) >= 2 and i % 2 == 0:
+                cut = rng.randrange(1, len(decls))
+                k, m = mutate(rng, [t for d in decls[cut:] for t in d])
+                vname, dname = rng.choice([(f'p{i}a.mal', f'p{i}l.mal'), (f'q{i}.mal', f'sub{i}/q{i}.mal'), (f'R{i}.mal', f'r{i}.mal'),
+                                           (f's{i}.mal', f's{i}.mal.mal'), (f'sub{i}/t{i}.mal', f't{i}.mal'), (f'dat{i}a.mal', f'dat{i}.mal')])
+                write(scratch, vname, render_junk([t for d in decls[:cut] for t in d]))
+                variants.append(('include-similar-name-' + k, [('kw', 'include'), ('str', vname), ('kw', 'include'), ('str', dname)], m, dname))
+            # a damaged file at the bottom of a chain of 9-13 includes (each file of the chain declares nothing itself)
+            if i % 5 == 0:
+                depth = rng.randint(9, 13)
+                k, m = mutate(rng, toks)
+                for lvl in range(1, depth):
+                    write(scratch, f'ch{i}_{lvl}.mal', render_junk([('kw', 'include'), ('str', f'ch{i}_{lvl + 1}.mal')]))
+                variants.append((f'include-depth-{depth}-' + k, [('kw', 'include'), ('str', f'ch{i}_1.mal')], m, f'ch{i}_{depth}.mal'))
             # a history on unchanged file names: the layout compiles, then an included file (one or two levels down) is
             # damaged while the files including it keep their text, and the same root is compiled again
             if len(decls) >= 2:
@@ -358,13 +375,13 @@ def check_c17(tier, seed):
                         metas.append({'kind': 'history-' + k, 'erroneous': True, 'lexer_errors': dle, 'prop_viol': hv, 'text': render_junk(hroot),
                                       'included': dtext, 'history': 'the same root compiled before with the valid included file' + (' (two levels down)' if nested else '')})
                         break
-            for vi, (k, root, inc) in enumerate(variants):
+            for vi, (k, root, inc, *incname) in enumerate(variants):
                 text = render_junk(root)
                 T, le, pe, tree, P = antlr_run(text)
                 err = le + pe > 0
                 if inc is not None:
                     itext = render_junk(inc)
-                    write(scratch, f'inc{i}.mal', itext)
+                    write(scratch, incname[0] if incname else f'inc{i}.mal', itext)
                     T2, le2, pe2, _, _ = antlr_run(itext)
                     err = err or (le2 + pe2 > 0)
                 fn = write(scratch, f'm{i}_{vi}.mal', text)
